@@ -123,6 +123,26 @@ var checkC18 = def("C18/deterministic", func(c detCase) error {
 		if erra != nil || errb != nil || !ra.equal(rb) {
 			return fmt.Errorf("%s: restricted to the line %s, the same call with the same context gives %v (%v), then %v (%v)", where, pvText(line), ra, erra, rb, errb)
 		}
+		// (4c) the same restricted search by a search object that has never seen this root, and by one
+		// whose previous search was of an unrelated root: what it returns depends on neither
+		s3, _ := cfg.make(c.Main.Param)
+		n3, sc3, pv3, err3 := s3.Search(context.Background(), &search.Context{TT: search.NoTranspositionTable{}, Ponder: append([]board.Move(nil), line...)}, ba.Fork(), c.Main.Depth)
+		if r3 := (searchOut{n3, sc3, pvText(pv3)}); err3 != nil || !ra.equal(r3) {
+			return fmt.Errorf("%s: restricted to the line %s, a fresh search object gives %v (%v), one that had searched this root before %v", where, pvText(line), r3, err3, ra)
+		}
+		s4, _ := cfg.make(c.Main.Param)
+		prev, prevDepth, prevName := bo.Fork(), min(c.Other.Depth, 2), c.Other.FEN
+		if ocfg.Name != cfg.Name {
+			// (a root of another configuration's case may be far too busy for this one: use the
+			// position after the first move of the line instead)
+			prev, prevDepth, prevName = ba.Fork(), 1, "the position after "+line[0].String()
+			prev.PushMove(line[0])
+		}
+		_, _ = runSearch(s4, prev, prevDepth) // only there to leave its traces in s4
+		n4, sc4, pv4, err4 := s4.Search(context.Background(), &search.Context{TT: search.NoTranspositionTable{}, Ponder: append([]board.Move(nil), line...)}, ba.Fork(), c.Main.Depth)
+		if r4 := (searchOut{n4, sc4, pvText(pv4)}); err4 != nil || !ra.equal(r4) {
+			return fmt.Errorf("%s: restricted to the line %s, a search object whose previous search was of %s gives %v (%v), otherwise %v", where, pvText(line), prevName, r4, err4, ra)
+		}
 		if !samePV(sctx.Ponder, line) {
 			return fmt.Errorf("%s: a search restricted to the line %s changed the caller's context: the line is now %s", where, pvText(line), pvText(sctx.Ponder))
 		}
